@@ -3,6 +3,7 @@
 # from the files on disk (offline; Lean 4.33 toolchain and Mathlib olean files are pre-installed).
 here=$(cd "$(dirname "$0")" && pwd)
 cd "$here/lean" || exit 2
+python3 "$here/tools/gen_lean_roots.py" >/dev/null || exit 2
 lake build PS psdriver || exit 2
 mods=""
 for f in PS/Props/*.lean; do mods="$mods PS.Props.$(basename "$f" .lean)"; done
